@@ -46,7 +46,7 @@ def adv_check(pid, tier, replay, plan):
     t0 = time.time()
     tmp = vf.mktmp("vf-%s-" % pid)
     seed = vf.seed()
-    rng = random.Random(seed * 7919 + hash(pid) % 1000)
+    rng = random.Random(seed * 7919 + int(pid[1:]))
     thorough = tier == "thorough"
 
     scenarios = []
@@ -137,6 +137,10 @@ def adv_check(pid, tier, replay, plan):
                                          "scenarios": [by_id.get(sid, {"id": sid})]})
         print("VIOLATION property=%s replay=%s clause=%s scenario=%s" % (pid, path, v["viol"], sid))
         rc = 1
+    if os.environ.get("VERIF_DEBUG"):
+        for v in others[:5]:
+            sid = v["id"].split("@")[0]
+            print("DEBUG", vf.save_replay(pid, "other-" + sid, {"property": pid, "clause": v["viol"], "at_ms": v.get("t"), "scenarios": [by_id.get(sid, {"id": sid})]}))
     for v in others[:5]:
         print("NOTE other-property clause=%s scenario=%s (reported by that property's own check)" % (v["viol"], v["id"]))
 
